@@ -177,6 +177,10 @@ def run(prop, tier, seed, shard, nshards):
     cases = build_cases(tier)
     import nasim
     acc.extra["nasim_file"] = nasim.__file__
+    use_contracts = prop in ("C07", "C13")
+    if use_contracts:
+        from .. import contracts
+        contracts.attach()
     for ci in corpus.shard_range(len(cases), shard, nshards):
         ctype, cid = cases[ci]
         rng = corpus.case_rng(seed, prop, ctype, cid)
@@ -218,6 +222,13 @@ def run(prop, tier, seed, shard, nshards):
         acc.count(f"route:{subj.route}")
         if not subj.row_order_ok:
             acc.inconclusive.append(f"row order differs in {ctype}:{cid}")
+    if prop == "C07":
+        C07.finalize_frequency(acc)
+    if use_contracts:
+        contracts.drain(acc, ["actionresult_invariant"] if prop == "C07" else
+                        ["network_perform_action_post",
+                         "hostvector_perform_action_post",
+                         "state_get_observation_post"])
     return acc.result()
 
 
